@@ -201,7 +201,7 @@ func init() {
 	engine.Register(&engine.Prop{
 		ID: "C05",
 		Shards: func(th bool) []string {
-			var s []string
+			s := []string{"special"}
 			for i := range c05Wraps {
 				if th {
 					for j := range c05Wraps {
@@ -214,7 +214,7 @@ func init() {
 			return s
 		},
 		Run:  c05Run,
-		Rule: "compositions wrapper^d ∘ statement-form ∘ expression-context^e ∘ failing-atom framed by literal text A…B: 14 block wrappers (top, if, else, for over a slice / an Iterator / a map, fn body, helper block, contentFor→contentOf plain / with a default block / with data, contentOf default block, partial body, layout), 12 statement forms (emit, silent, let, assign, if/else-if condition, for iterable, return, partial/contentOf data), 38 expression contexts (each operand side of all 13 binary operators, !, array/hash element, index container/index, Go-helper/user-fn/method argument), 19 failing atoms (helper returning (T,err)/(err), method returning (T,err), failing helper/method as head of a .field/.method()/[i] chain, type error, index out of range, division by zero — each with a recording call so 'reached' is measured — unknown identifier, unknown function, unknown identifier as argument, unknown identifier inside a partial / a helper-rendered template, a method that does not exist on a pointer / value receiver). Oracle when the failing site was reached: err != nil, output empty, errors.Is(err, sentinel) for helper failures; an unknown identifier is tolerated exactly as direct condition or direct operand of ! == != && || and fails everywhere else. Non-trivial: the failing site was reached (counted).",
+		Rule: "compositions wrapper^d ∘ statement-form ∘ expression-context^e ∘ failing-atom framed by literal text A…B: 14 block wrappers (top, if, else, for over a slice / an Iterator / a map, fn body, helper block, contentFor→contentOf plain / with a default block / with data, contentOf default block, partial body, layout), 12 statement forms (emit, silent, let, assign, if/else-if condition, for iterable, return, partial/contentOf data), 38 expression contexts (each operand side of all 13 binary operators, !, array/hash element, index container/index, Go-helper/user-fn/method argument), 19 failing atoms (helper returning (T,err)/(err), method returning (T,err), failing helper/method as head of a .field/.method()/[i] chain, type error, index out of range, division by zero — each with a recording call so 'reached' is measured — unknown identifier, unknown function, unknown identifier as argument, unknown identifier inside a partial / a helper-rendered template, a method that does not exist on a pointer / value receiver). Oracle when the failing site was reached: err != nil, output empty, errors.Is(err, sentinel) for helper failures; an unknown identifier is tolerated exactly as direct condition or direct operand of ! == != && || and fails everywhere else. (special) assignments that cannot be carried out (to a field path, with or without a variable named like its last segment, nested, inside a block / function; to unknown variables; out of range) fail the render. Non-trivial: the failing site was reached (counted).",
 		Bound: func(th bool) string {
 			if th {
 				return "d<=2 wrappers, e<=2 expression contexts"
@@ -225,6 +225,10 @@ func init() {
 }
 
 func c05Run(t *engine.T, shard string) {
+	if shard == "special" {
+		c05Special(t)
+		return
+	}
 	var wi, wj = -1, -1
 	if strings.Contains(shard, ".") {
 		fmt.Sscanf(shard, "%d.%d", &wi, &wj)
@@ -337,4 +341,34 @@ func c05One(t *engine.T, wi, wj int, st c05Stmt, exprs []*c05Expr, at c05Atom) {
 			return "failed-as-required", nil
 		}
 	})
+}
+
+// c05Special: operations that cannot be carried out fail the render - they are never carried out on
+// something else instead.
+func c05Special(t *engine.T) {
+	cases := []struct{ name, src string }{
+		{"assignment to a field path", `A<% let Name = "a" %><% st.Name = "b" %>B<%= Name %>`},
+		{"assignment to a field path, no such variable", `A<% st.Name = "b" %>B`},
+		{"assignment to a nested field path", `A<% let Name = "a" %><% pst.Kid.Name = "b" %>B<%= Name %>`},
+		{"assignment to a field path inside a block", `A<% let Name = "a" %><%= if (true) { %><% st.Name = "b" %>x<% } %>B<%= Name %>`},
+		{"assignment to a field path inside a function", `A<% let Name = "a" %><% let f = fn() { st.Name = "b"
+ return Name } %><%= f() %>B`},
+		{"assignment to an unknown variable", `A<% zz = 1 %>B`},
+		{"assignment to an index of an unknown variable", `A<% zz[0] = 1 %>B`},
+		{"assignment to an index out of range", `A<% one[5] = 1 %>B`},
+	}
+	for _, c := range cases {
+		c := c
+		t.Case("special "+c.name+" "+q(c.src), true, func() (string, *engine.Fail) {
+			e := &c05Env{partials: map[string]string{}}
+			out, err := Render(c.src, e.context())
+			if err == nil {
+				return "", engine.Failf("swallowed", "the operation cannot be carried out but Render succeeded with %q", out)
+			}
+			if out != "" {
+				return "", engine.Failf("partial-output", "error %v together with output %q", err, out)
+			}
+			return "failed-as-required", nil
+		})
+	}
 }
